@@ -954,6 +954,48 @@ def truthy_condition_checks():
     return bad[:6]
 
 
+def nested_fit_check():
+    """a callback that runs a nested fit() on the same solver: the documented predicates over the LOCAL epoch keep referring to the call they
+    belong to (the outer call's epochs 1..n), before and after the nested call"""
+    import warnings
+    import torch
+    from neurodiffeq import callbacks as CB, diff
+    from neurodiffeq.solvers import Solver1D
+    from neurodiffeq.conditions import IVP
+    from neurodiffeq.networks import FCNN
+    from neurodiffeq.generators import Generator1D
+    bad = []
+    with warnings.catch_warnings():
+        warnings.simplefilter('ignore')
+        torch.manual_seed(0)
+        s = Solver1D(lambda u, t: [diff(u, t) + u], [IVP(0., 1.)], t_min=0., t_max=1., nets=[FCNN(1, 1, hidden_units=(3,))], n_batches_valid=1,
+                     train_generator=Generator1D(4, 0., 1.), valid_generator=Generator1D(4, 0., 1.))
+        fired, state = [], dict(done=False, epoch=0)
+
+        class Count(CB.ActionCallback):
+            def __call__(self, solver):
+                state['epoch'] += 1          # the outer call's own epoch counter (this callback is first in the outer list only)
+
+        class Mark(CB.ActionCallback):
+            def __call__(self, solver):
+                fired.append(state['epoch'])
+
+        class Nested(CB.ActionCallback):
+            def __call__(self, solver):
+                if state['epoch'] == 2 and not state['done']:
+                    state['done'] = True
+                    solver.fit(3, tqdm_file=None)
+        try:
+            # (the nested call is started by the LAST callback of the epoch: what the other callbacks of that epoch see is not affected by it)
+            s.fit(6, callbacks=[Count(), Mark().conditioned_on(CB.PeriodLocal(period=2)), Nested()], tqdm_file=None)
+            if fired != [2, 4, 6]:
+                bad.append(dict(script=dict(family='nested fit(3) started by a callback in epoch 2 of fit(6)', predicate='PeriodLocal(period=2)'),
+                                violated=[f'action ran in outer epochs {fired}; the predicate holds in epochs [2, 4, 6]']))
+        except Exception as e:
+            bad.append(dict(script=dict(family='nested fit started by a callback'), violated=[f'{type(e).__name__}: {e}']))
+    return bad
+
+
 def frozen_parameter_checks():
     """set-once optimiser actions "leave the solver training every distinct parameter once per step": also parameters that are frozen
     (requires_grad=False) at the moment of the switch and unfrozen later - they must be registered with the new optimiser"""
@@ -1055,6 +1097,7 @@ def check(tier, seed):
     failing += frozen_parameter_checks()
     failing += eve_large_k_checks()
     failing += truthy_condition_checks()
+    failing += nested_fit_check()
     # malformed stream
     mal_blocks, mal_real = [], []
     for name, line, ctor, exc in MALFORMED:
